@@ -596,6 +596,14 @@ def _conc_inputs(req):
 def _conc_call(req):
     from tensora.compile import _porcelain as porc
 
+    if "operator" in req:
+        import operator as _op
+
+        o = req["operator"]
+        left = _tensor(o["left"]) if isinstance(o["left"], dict) else o["left"]
+        right = _tensor(o["right"]) if isinstance(o["right"], dict) else o["right"]
+        return {"+": _op.add, "-": _op.sub, "*": _op.mul, "@": _op.matmul}[o["op"]](left, right)
+
     fn = porc.evaluate_cffi if req["backend"] == "cffi" else porc.evaluate_tensora
     return fn(req["text"], req["output_format"], **_conc_inputs(req))
 
